@@ -7,15 +7,15 @@ WT=$(mktemp -d /tmp/evalmut_XXXX); rmdir $WT
 git -C /repo worktree add -q $WT HEAD || exit 9
 cd $WT
 if ! git apply $PATCH; then echo "PATCH-DOES-NOT-APPLY"; cd /; git -C /repo worktree remove --force $WT; exit 8; fi
-echo "== demo on mutated tree"; PYTHONPATH=$WT /venv/bin/python $DEMO > /tmp/evalmut_demo.log 2>&1; echo "demo exit=$? (expect 1)"; tail -n 3 /tmp/evalmut_demo.log
+echo "== demo on mutated tree"; PYTHONPATH=$WT /venv/bin/python $DEMO > $WT.demo.log 2>&1; echo "demo exit=$? (expect 1)"; tail -n 3 $WT.demo.log
 if [ -z "$SKIP_TESTS" ]; then
 echo "== baseline tests on mutated tree"
-/venv/bin/python -m pytest -q -p no:cacheprovider --timeout=900 --continue-on-collection-errors --junitxml=/tmp/evalmut.xml > /tmp/evalmut_tests.log 2>&1
-/venv/bin/python - <<'PY'
+/venv/bin/python -m pytest -q -p no:cacheprovider --timeout=900 --continue-on-collection-errors --junitxml=$WT.junit.xml > $WT.tests.log 2>&1
+EVAL_XML=$WT.junit.xml /venv/bin/python - <<'PY'
 import json, xml.etree.ElementTree as ET
 want=set(json.load(open('/root/.vp/BASELINE.json'))['stable_pass'])
 passed=set()
-for tc in ET.parse('/tmp/evalmut.xml').getroot().iter('testcase'):
+for tc in ET.parse(__import__('os').environ['EVAL_XML']).getroot().iter('testcase'):
     if not any(ch.tag in ('failure','error','skipped') for ch in tc):
         passed.add(tc.get('classname')+'::'+tc.get('name'))
 miss=sorted(want-passed)
@@ -23,6 +23,7 @@ print('stable_pass still passing:', len(want)-len(miss), '/', len(want), 'MISSIN
 PY
 fi
 echo "== check $P ($TIER) on mutated tree"
-cd /verif && VERIF_REPO=$WT timeout 3000 ./check $P --tier $TIER > /tmp/evalmut_check.log 2>&1; echo "check exit=$? (expect 1)"; grep -E "^VIOLATION|^  key=|^KNOWN|^INCONCLUSIVE" /tmp/evalmut_check.log | cut -c1-300 | head -8; tail -n 1 /tmp/evalmut_check.log | cut -c1-200
+cd /verif && VERIF_REPO=$WT timeout 3000 ./check $P --tier $TIER > $WT.check.log 2>&1; echo "check exit=$? (expect 1)"; grep -E "^VIOLATION|^  key=|^KNOWN|^INCONCLUSIVE" $WT.check.log | cut -c1-300 | head -8; tail -n 1 $WT.check.log | cut -c1-200
 git -C /repo worktree remove --force $WT
+rm -f $WT.demo.log $WT.junit.xml $WT.tests.log $WT.check.log
 git -C /verif checkout -- evidence 2>/dev/null
